@@ -2,6 +2,7 @@ package main
 
 import (
 	"fmt"
+	"go/constant"
 	"go/token"
 	"go/types"
 	"sort"
@@ -40,6 +41,8 @@ type srcWalker struct {
 	in   map[*ssa.Function]bool
 	seen map[ssa.Value]bool
 	out  []srcLeaf
+	// cloneIsFresh: a clone is a new object (kind "fresh") instead of standing for what it was copied from
+	cloneIsFresh bool
 }
 
 func htmlNodeStruct(t types.Type) bool {
@@ -251,10 +254,18 @@ func (w *srcWalker) call(cl *ssa.Call, resIdx int, v ssa.Value, depth int) {
 		w.leaf("slot", v, "SlotScope.GetSlot")
 		return
 	case name == "(*sync.Pool).Get":
-		w.leaf("subtree", v, "fresh object from a pool")
+		if w.cloneIsFresh {
+			w.leaf("fresh", v, "fresh object from a pool")
+		} else {
+			w.leaf("subtree", v, "fresh object from a pool")
+		}
 		return
 	}
 	if callee != nil && inModule(callee) && len(cl.Call.Args) > 0 && nodeCarrying(cl.Call.Args[0].Type()) && (isDeepCloner(w.p, callee) || strings.Contains(callee.Name(), "Clone")) {
+		if w.cloneIsFresh {
+			w.leaf("fresh", v, "clone made by "+shortName(callee))
+			return
+		}
 		// a copy stands for what it was copied from
 		w.walk(cl.Call.Args[0], depth+1)
 		return
@@ -262,7 +273,7 @@ func (w *srcWalker) call(cl *ssa.Call, resIdx int, v ssa.Value, depth int) {
 	if callee != nil && inModule(callee) && len(callee.Blocks) > 0 {
 		// a helper that returns nodes derived from its arguments (clone, filter, child list …): follow the
 		// callee's results, with its parameters standing for the arguments
-		sub := &srcWalker{p: w.p, in: w.in, seen: map[ssa.Value]bool{}}
+		sub := &srcWalker{p: w.p, in: w.in, seen: map[ssa.Value]bool{}, cloneIsFresh: w.cloneIsFresh}
 		for _, r := range returnsOf(callee) {
 			if resIdx < len(r.Results) {
 				sub.walk(r.Results[resIdx], depth+1)
@@ -277,7 +288,7 @@ func (w *srcWalker) call(cl *ssa.Call, resIdx int, v ssa.Value, depth int) {
 				}
 				continue
 			}
-			if l.kind == "evaluated" || l.kind == "subtree" {
+			if l.kind == "evaluated" || (l.kind == "subtree" && !w.cloneIsFresh) {
 				// fresh nodes made inside the helper
 				continue
 			}
@@ -618,3 +629,1965 @@ func init() {
 	})
 }
 
+
+func init() {
+	register(&Rule{
+		ID: "C01.R8", Props: []string{"C01", "C14"}, Min: 3,
+		Doc: "nothing evaluated is put where the attribute pass will interpolate it: the directive handlers that run on an element before its attributes are interpolated (v-html, v-text, v-show) store no value that came from data (expression evaluator, scope lookup, pipe, interpolator) into an attribute of that element — except the two internal carrier attributes, which the attribute pass skips (C01.R1). A style or class rewritten by such a handler is assembled from template text and constants only, so every attribute value is interpolated exactly once",
+		Run: func(p *Prog, c *Ctx) {
+			ev := p.MustFn("(*vuego.Vue).evaluate")
+			var attrPass ssa.CallInstruction
+			for _, site := range callsIn(ev) {
+				if calleeName(site.Common()) == "(*vuego.Vue).evalAttributes" {
+					attrPass = site
+				}
+			}
+			if attrPass == nil {
+				undecided("evaluate: no call of evalAttributes")
+			}
+			var node ssa.Value
+			for _, a := range attrPass.Common().Args {
+				if isNamed(a.Type(), "golang.org/x/net/html", "Node") {
+					node = a
+				}
+			}
+			if node == nil {
+				undecided("evaluate: evalAttributes takes no node")
+			}
+			// handlers that receive the same node earlier
+			var handlers []*ssa.Function
+			for _, site := range callsIn(ev) {
+				callee := site.Common().StaticCallee()
+				if callee == nil || !inModule(callee) || site == attrPass || !dominates(site, attrPass) {
+					continue
+				}
+				if pk := funcPkg(callee); pk == nil || pk.Path() != modPath {
+					continue
+				}
+				for _, a := range site.Common().Args {
+					if a == node || sameValue(a, node) {
+						handlers = append(handlers, callee)
+					}
+				}
+			}
+			c.check(len(handlers) > 0, "evaluate: directive handlers before the attribute pass", p.instrPos(attrPass), fmt.Sprintf("%d handler(s) run on the element first", len(handlers)), "no handler runs before the attribute pass")
+			if len(handlers) == 0 {
+				return
+			}
+			scope := p.Cone(handlers...)
+			// never descend into the evaluator proper or the attribute pass
+			for f := range scope {
+				switch shortName(f) {
+				case "(*vuego.Vue).evaluate", "(*vuego.Vue).evalAttributes":
+					delete(scope, f)
+				}
+			}
+			t := newTaint(p)
+			t.Scope = func(fn *ssa.Function) bool { return scope[fn] }
+			// through the module's own small structs (parsed style declarations …), not through DOM nodes or the context
+			t.FollowField = func(fv *types.Var) bool {
+				if fv.Pkg() == nil || !strings.HasPrefix(fv.Pkg().Path(), modPath) {
+					return false
+				}
+				switch fv.Name() {
+				case "stack", "seen", "SlotScope":
+					return false
+				}
+				return isString(fv.Type())
+			}
+			isAttrSetter := func(callee *ssa.Function) bool {
+				if callee == nil || !inModule(callee) || len(callee.Params) != 3 {
+					return false
+				}
+				return isNamed(callee.Params[0].Type(), "golang.org/x/net/html", "Node") && isString(callee.Params[1].Type()) && isString(callee.Params[2].Type()) && strings.HasSuffix(callee.Name(), "Attr")
+			}
+			t.Sink = func(u ssa.Instruction, v ssa.Value) string {
+				switch x := u.(type) {
+				case ssa.CallInstruction:
+					callee := x.Common().StaticCallee()
+					if isAttrSetter(callee) && len(x.Common().Args) == 3 && x.Common().Args[2] == v {
+						if k, ok := constString(x.Common().Args[1]); ok && (k == carrierHTML || k == carrierText) {
+							return ""
+						}
+						k, _ := constString(x.Common().Args[1])
+						return "stored into attribute \"" + k + "\" through " + shortName(callee)
+					}
+				case *ssa.Store:
+					if x.Val != v {
+						return ""
+					}
+					if fv := fieldVar(x.Addr); fv != nil && fv.Name() == "Val" && fv.Pkg() != nil && fv.Pkg().Path() == "golang.org/x/net/html" && !isAttrSetter(x.Parent()) {
+						// html.Attribute{Key: <carrier>, Val: v}: the key stored into the same struct
+						if fa, ok := x.Addr.(*ssa.FieldAddr); ok {
+							if refs := fa.X.Referrers(); refs != nil {
+								for _, r := range *refs {
+									kfa, ok := r.(*ssa.FieldAddr)
+									if !ok || fieldName(kfa.X.Type(), kfa.Field) != "Key" {
+										continue
+									}
+									for _, kr := range *kfa.Referrers() {
+										if kst, ok := kr.(*ssa.Store); ok && kst.Addr == ssa.Value(kfa) {
+											if k, ok := constString(kst.Val); ok && (k == carrierHTML || k == carrierText) {
+												return ""
+											}
+										}
+									}
+								}
+							}
+						}
+						return "stored into an attribute value"
+					}
+				}
+				return ""
+			}
+			// an attribute setter is a sink as a whole: do not follow the value into it
+			t.StopCall = func(site ssa.CallInstruction, arg ssa.Value) bool {
+				return isAttrSetter(site.Common().StaticCallee())
+			}
+			srcs := 0
+			for _, fn := range sortedFuncs(scope) {
+				for _, site := range callsIn(fn) {
+					cv, ok := site.(*ssa.Call)
+					if !ok {
+						continue
+					}
+					switch calleeName(site.Common()) {
+					case "(*vuego.ExprEvaluator).Eval", "(*vuego.Stack).Resolve", "(*vuego.Stack).Lookup", "(*vuego.Vue).evalPipe", "(*vuego.Vue).interpolate", "(*vuego.Vue).evalBoundAttribute":
+						srcs++
+						t.Seed(cv, calleeName(site.Common())+" at "+p.instrPos(site))
+						if refs := cv.Referrers(); refs != nil {
+							for _, r := range *refs {
+								if ex, ok := r.(*ssa.Extract); ok && ex.Index == 0 {
+									t.Seed(ex, calleeName(site.Common())+" at "+p.instrPos(site))
+								}
+							}
+						}
+					}
+				}
+			}
+			// the sink test must also see direct uses: run with sinks checked before StopCall
+			t.Run()
+			c.check(srcs > 0, "handlers evaluate data", "-", fmt.Sprintf("%d evaluated values followed in %d functions", srcs, len(scope)), "no evaluated value found in the handlers")
+			for _, h := range t.Hits {
+				c.fail(shortName(h.At.Parent())+": "+h.What, p.instrPos(h.At), "a value that came from data ("+shortWhy(h.Why)+") is "+h.What+" of the element before its attributes are interpolated: the attribute pass interpolates it again, so {{ }} inside the data is evaluated against the scope")
+			}
+			c.ok("handlers", p.instrPos(attrPass), fmt.Sprintf("%d handlers; their stores into the element's attributes take template text and constants only", len(handlers)))
+		},
+	})
+}
+
+func init() {
+	register(&Rule{
+		ID: "C02.R5", Props: []string{"C02"}, Min: 2,
+		Doc: "a source that contains `</html>` anywhere is parsed as a document: in the template parser the branch that calls html.Parse is taken whenever a position-independent containment test (bytes/strings.Contains or Index ≥ 0 of the parameter for a constant containing `</html>`) is true — the test is reached for every input (conditions before it may only add further ways into the document branch) and its true edge leads to html.Parse without another test. A prefix/suffix form of the test sends documents with anything after `</html>` (a trailing comment) to the fragment parser, which drops the doctype and the html/head/body elements with their attributes",
+		Run: func(p *Prog, c *Ctx) {
+			fn := p.MustFn("parser.ParseTemplateBytes")
+			var parse ssa.CallInstruction
+			for _, site := range callsIn(fn) {
+				if calleeName(site.Common()) == "golang.org/x/net/html.Parse" {
+					parse = site
+				}
+			}
+			c.check(parse != nil, "parser: documents go to html.Parse", p.pos(fn.Pos()), "html.Parse call present", "the template parser never calls html.Parse: full documents are parsed as fragments")
+			if parse == nil {
+				return
+			}
+			fromParam := func(v ssa.Value) bool {
+				for _, o := range p.origins(v, OriginOpts{ThroughCall: func(cl *ssa.Call) []ssa.Value {
+					switch calleeName(&cl.Call) {
+					case "bytes.ToLower", "strings.ToLower", "bytes.ToUpper", "strings.ToUpper":
+						return cl.Call.Args[:1]
+					}
+					return nil
+				}}) {
+					if _, ok := o.(*ssa.Parameter); ok {
+						return true
+					}
+				}
+				return false
+			}
+			hasMarker := func(v ssa.Value) bool {
+				for _, o := range p.origins(v, OriginOpts{}) {
+					if s, ok := constString(o); ok && strings.Contains(strings.ToLower(s), "</html>") {
+						return true
+					}
+				}
+				return false
+			}
+			// containment: the condition (true) means "the source contains the marker somewhere"
+			isContainment := func(cnd ssa.Value, want bool) bool {
+				if cl, ok := cnd.(*ssa.Call); ok && want {
+					switch calleeName(&cl.Call) {
+					case "bytes.Contains", "strings.Contains":
+						return fromParam(cl.Call.Args[0]) && hasMarker(cl.Call.Args[1])
+					}
+				}
+				if op, x, y, ok := relationOnEdge(cnd, want); ok {
+					cl, isCall := x.(*ssa.Call)
+					k, isK := constInt(y)
+					if isCall && isK {
+						switch calleeName(&cl.Call) {
+						case "bytes.Index", "strings.Index", "bytes.LastIndex", "strings.LastIndex":
+							if fromParam(cl.Call.Args[0]) && hasMarker(cl.Call.Args[1]) {
+								return (op == token.GEQ && k == 0) || (op == token.GTR && k == -1) || (op == token.NEQ && k == -1)
+							}
+						}
+					}
+				}
+				return false
+			}
+			leadsToParse := func(b *ssa.BasicBlock) bool {
+				for d := 0; d < 4 && b != nil; d++ {
+					if b == parse.Block() {
+						return true
+					}
+					if len(b.Succs) != 1 {
+						return false
+					}
+					b = b.Succs[0]
+				}
+				return false
+			}
+			ok, why := false, "no containment test for `</html>` decides the document branch"
+			b := fn.Blocks[0]
+			for steps := 0; steps < 16 && b != nil; steps++ {
+				ifi, isIf := b.Instrs[len(b.Instrs)-1].(*ssa.If)
+				if !isIf {
+					if len(b.Succs) == 1 {
+						b = b.Succs[0]
+						continue
+					}
+					break
+				}
+				cnd, flip := stripNot(ifi.Cond)
+				tk, fk := 0, 1
+				if flip {
+					tk, fk = 1, 0
+				}
+				if isContainment(cnd, true) {
+					if leadsToParse(b.Succs[tk]) {
+						ok = true
+					} else {
+						why = "the containment test does not lead straight to html.Parse"
+					}
+					break
+				}
+				// another condition in front of it: acceptable only as a further way into the document branch
+				if leadsToParse(b.Succs[tk]) {
+					b = b.Succs[fk]
+					continue
+				}
+				if leadsToParse(b.Succs[fk]) {
+					b = b.Succs[tk]
+					continue
+				}
+				why = "a condition at " + p.instrPos(ifi) + " that is not a containment test decides whether the source is a document"
+				break
+			}
+			c.check(ok, "parser: a source containing </html> is a document", p.instrPos(parse), "containment test → html.Parse, reached for every input", "a template that contains `</html>` can be handed to the fragment parser ("+why+"): the doctype and the html, head and body elements with their attributes disappear from the output")
+		},
+	})
+}
+
+func init() {
+	register(&Rule{
+		ID: "C03.R6", Props: []string{"C03", "C09", "C10", "C11"}, Min: 8,
+		Doc: "the evaluator's output is made of fresh nodes only: every node list an evaluator function returns consists of nodes allocated or cloned during this evaluation and of what other evaluator calls returned — never a node of the template it was given. A template node that is handed through keeps its sibling links into the unevaluated template (the serialiser walks on into branches that were decided not to render) and is re-linked by its new parent (the cached template is modified while other renders read it)",
+		Run: func(p *Prog, c *Ctx) {
+			cone := p.evaluatorCone()
+			n := 0
+			for _, fn := range sortedFuncs(cone) {
+				if fn.Signature.Results().Len() == 0 || !isNodeSlice(fn.Signature.Results().At(0).Type()) {
+					continue
+				}
+				if !strings.HasPrefix(typeShort(recvType(fn)), "*vuego.Vue") {
+					continue
+				}
+				in := map[*ssa.Function]bool{}
+				for f := range cone {
+					if f.Signature.Results().Len() > 0 && isNodeSlice(f.Signature.Results().At(0).Type()) && strings.HasPrefix(typeShort(recvType(f)), "*vuego.Vue") {
+						in[f] = true
+					}
+				}
+				for i, r := range returnsOf(fn) {
+					n++
+					w := &srcWalker{p: p, in: in, seen: map[ssa.Value]bool{}, cloneIsFresh: true}
+					w.walk(r.Results[0], 0)
+					var bad []string
+					for _, l := range w.out {
+						switch l.kind {
+						case "evaluated", "fresh":
+						default:
+							bad = append(bad, l.kind+": "+l.detail+" at "+p.instrPosOf(l.v))
+						}
+					}
+					sort.Strings(bad)
+					bad = uniqStrings(bad)
+					key := fmt.Sprintf("%s: return#%d", shortName(fn), i+1)
+					// handing the caller's own list back untouched is not output: `return nodes` for an empty list, or for
+					// a list that is not rooted in a <template> element (callers branch on that; C01.R1)
+					if prm, isParam := r.Results[0].(*ssa.Parameter); isParam && len(bad) > 0 {
+						inTemplateBranch := guardedBy(r.Block(), func(cnd ssa.Value, want bool) bool {
+							_, s, ok := eqConstCond(cnd, want)
+							return ok && s == "template"
+						})
+						if !inTemplateBranch {
+							c.ok(key, p.instrPos(r), "hands the caller's own list `"+prm.Name()+"` back untouched (empty, or not rooted in a <template>)")
+							continue
+						}
+					}
+					if len(bad) == 0 {
+						c.ok(key, p.instrPos(r), "fresh nodes and evaluator output only")
+						continue
+					}
+					c.fail(key, p.instrPos(r), "a node of the template that was handed in is returned as output ("+strings.Join(bad, "; ")+"): it still carries its links into the unevaluated template, and its new parent re-links it, which writes into the shared template")
+				}
+			}
+			c.ok("returns", "-", fmt.Sprintf("%d returns of evaluator functions examined", n))
+		},
+	})
+}
+
+func uniqStrings(in []string) []string {
+	var out []string
+	for i, s := range in {
+		if i == 0 || s != in[i-1] {
+			out = append(out, s)
+		}
+	}
+	return out
+}
+
+func init() {
+	register(&Rule{
+		ID: "C03.R7", Props: []string{"C03", "C13"}, Min: 4,
+		Doc: "a condition is decided by the expression evaluator on the whole expression; everything else is a fallback: in the truthiness positions (v-if / v-else-if, v-show, :class / :style object values) a scope path lookup (Stack.Resolve) or an evaluation of only a part of the expression (the text after a leading `!`) is reached solely on the failing edge of an evaluator call on the whole expression. A path lookup treats `a[i]` as the literal key \"i\", and `!(rest)` is not `!a && b`, so taking such a shortcut first gives the same expression a different value in one position",
+		Run: func(p *Prog, c *Ctx) {
+			n := 0
+			for _, name := range []string{"(*vuego.Vue).evalConditionExpr", "(*vuego.Vue).evalVShow", "vuego.parseObjectPairs"} {
+				fn := p.Fn(name)
+				if fn == nil {
+					fn = p.Fn("(*vuego.Vue).parseObjectPairs")
+				}
+				if fn == nil {
+					undecided("anchor function %s not found", name)
+				}
+				// reaches: walking v backwards through trimming / slicing / locals arrives at target; sliced tells
+				// whether a proper part was taken on the way
+				var reaches func(v, target ssa.Value, sliced bool, d int, seen map[ssa.Value]bool) (bool, bool)
+				reaches = func(v, target ssa.Value, sliced bool, d int, seen map[ssa.Value]bool) (bool, bool) {
+					if v == nil || d > 14 || seen[v] {
+						return false, false
+					}
+					seen[v] = true
+					if v == target || sameValue(v, target) {
+						return true, sliced
+					}
+					switch x := v.(type) {
+					case *ssa.Slice:
+						return reaches(x.X, target, true, d+1, seen)
+					case *ssa.Phi:
+						for _, e := range x.Edges {
+							if ok, sl := reaches(e, target, sliced, d+1, seen); ok {
+								return true, sl
+							}
+						}
+					case *ssa.Extract:
+						return reaches(x.Tuple, target, sliced, d+1, seen)
+					case *ssa.Call:
+						switch calleeName(&x.Call) {
+						case "strings.TrimSpace", "helpers.NormalizeComparisonOperators":
+							return reaches(x.Call.Args[0], target, sliced, d+1, seen)
+						case "strings.TrimPrefix", "strings.TrimLeft", "strings.CutPrefix", "strings.TrimSuffix":
+							return reaches(x.Call.Args[0], target, true, d+1, seen)
+						}
+					case *ssa.UnOp:
+						if cell := cellOf(x.X); cell != nil {
+							for _, st := range storesToCell(cell) {
+								if ok, sl := reaches(st.Val, target, sliced, d+1, seen); ok {
+									return true, sl
+								}
+							}
+						}
+					}
+					return false, false
+				}
+				var evals []*ssa.Call
+				var others []ssa.CallInstruction
+				for _, site := range callsIn(fn) {
+					cv, ok := site.(*ssa.Call)
+					if !ok {
+						continue
+					}
+					switch calleeName(site.Common()) {
+					case "(*vuego.ExprEvaluator).Eval":
+						evals = append(evals, cv)
+					case "(*vuego.Stack).Resolve", "(*vuego.Stack).Lookup":
+						others = append(others, site)
+					}
+				}
+				// an evaluator call on a proper part of another evaluator call's text is secondary
+				var wholeEvals []*ssa.Call
+				for _, e := range evals {
+					secondary := false
+					for _, e2 := range evals {
+						if e2 == e {
+							continue
+						}
+						if ok, sliced := reaches(e.Call.Args[1], e2.Call.Args[1], false, 0, map[ssa.Value]bool{}); ok && sliced {
+							secondary = true
+						}
+					}
+					if secondary {
+						others = append(others, e)
+					} else {
+						wholeEvals = append(wholeEvals, e)
+					}
+				}
+				short := strings.TrimPrefix(strings.TrimPrefix(name, "(*vuego.Vue)."), "vuego.")
+				c.check(len(wholeEvals) > 0, short+": evaluates the whole expression", p.pos(fn.Pos()), fmt.Sprintf("%d evaluator call(s) on the whole expression", len(wholeEvals)), "no call of the expression evaluator on the whole expression")
+				for _, site := range others {
+					n++
+					failed := func(cnd ssa.Value, want bool) bool {
+						op, x, y, ok := relationOnEdge(cnd, want)
+						if !ok || !isNilConst(y) || op != token.NEQ {
+							return false
+						}
+						ex, isEx := x.(*ssa.Extract)
+						if !isEx {
+							return false
+						}
+						for _, we := range wholeEvals {
+							if ex.Tuple == ssa.Value(we) {
+								return true
+							}
+						}
+						return false
+					}
+					what := "scope path lookup"
+					if calleeName(site.Common()) == "(*vuego.ExprEvaluator).Eval" {
+						what = "evaluation of a part of the expression"
+					}
+					c.check(everyPathCrosses(site.Block(), failed), fmt.Sprintf("%s: %s#%d is a fallback", short, what, n), p.instrPos(site), "only after the evaluator failed on the whole expression", "this "+what+" can be reached without the expression evaluator having failed on the whole expression: the shortcut decides the condition (`flags[i]` is looked up as the key \"i\"; `!a && b` becomes `!(a && b)`), and v-if disagrees with v-show and :class about the same expression")
+				}
+			}
+		},
+	})
+}
+
+// ---------- which conditions may decide whether a mandatory action happens ----------
+
+// controllingIfs: the branches that decide whether site is executed — an If from which site's block
+// is reachable along one successor but not along the other (taking that edge forgoes the action).
+func controllingIfs(site ssa.Instruction) []Guard {
+	fn := site.Parent()
+	target := site.Block()
+	// reachability within one iteration: back edges (to a block that dominates the source) are not followed
+	fwd := func(from *ssa.BasicBlock) map[*ssa.BasicBlock]bool {
+		seen := map[*ssa.BasicBlock]bool{}
+		work := []*ssa.BasicBlock{from}
+		for len(work) > 0 {
+			b := work[len(work)-1]
+			work = work[:len(work)-1]
+			if seen[b] {
+				continue
+			}
+			seen[b] = true
+			for _, s := range b.Succs {
+				if s.Dominates(b) {
+					continue
+				}
+				work = append(work, s)
+			}
+		}
+		return seen
+	}
+	var out []Guard
+	for _, b := range fn.Blocks {
+		ifi, ok := b.Instrs[len(b.Instrs)-1].(*ssa.If)
+		if !ok || b.Succs[0] == b.Succs[1] {
+			continue
+		}
+		reachVia := func(s *ssa.BasicBlock) bool {
+			if s.Dominates(b) {
+				return false // a back edge: the next iteration
+			}
+			return fwd(s)[target]
+		}
+		r0, r1 := reachVia(b.Succs[0]), reachVia(b.Succs[1])
+		switch {
+		case r0 && !r1:
+			out = append(out, Guard{ifi, true})
+		case r1 && !r0:
+			out = append(out, Guard{ifi, false})
+		}
+	}
+	return out
+}
+
+// condLeaves lists what a condition is computed from: field loads, calls, parameters, φ-nodes, constants.
+func condLeaves(v ssa.Value) []ssa.Value {
+	var out []ssa.Value
+	seen := map[ssa.Value]bool{}
+	var walk func(v ssa.Value, d int)
+	walk = func(v ssa.Value, d int) {
+		if v == nil || seen[v] || d > 8 {
+			return
+		}
+		seen[v] = true
+		switch x := v.(type) {
+		case *ssa.BinOp:
+			walk(x.X, d+1)
+			walk(x.Y, d+1)
+		case *ssa.UnOp:
+			if x.Op == token.NOT || x.Op == token.SUB {
+				walk(x.X, d+1)
+				return
+			}
+			out = append(out, v)
+		case *ssa.Convert:
+			walk(x.X, d+1)
+		case *ssa.ChangeType:
+			walk(x.X, d+1)
+		case *ssa.Extract:
+			out = append(out, v)
+		default:
+			out = append(out, v)
+		}
+	}
+	walk(v, 0)
+	return out
+}
+
+type vocabulary struct {
+	nodeFields map[string]bool // fields of html.Node a condition may read
+	calls      map[string]bool // callee names whose result may be tested
+	extra      func(v ssa.Value) bool
+}
+
+// outsideVocabulary returns a description of the first leaf of cond that the vocabulary does not allow.
+func (voc vocabulary) outsideVocabulary(p *Prog, cond ssa.Value) string {
+	for _, l := range condLeaves(cond) {
+		if isErrorType(l.Type()) {
+			continue // the error of an earlier step
+		}
+		switch x := l.(type) {
+		case *ssa.Const, *ssa.Parameter, *ssa.Phi:
+			continue
+		case *ssa.UnOp:
+			if x.Op == token.MUL {
+				if fv := loadedField(x); fv != nil {
+					if fv.Pkg() != nil && fv.Pkg().Path() == "golang.org/x/net/html" {
+						if voc.nodeFields[fv.Name()] {
+							continue
+						}
+						return "the node's " + fv.Name()
+					}
+					if voc.extra != nil && voc.extra(l) {
+						continue
+					}
+					return "field " + fv.Name()
+				}
+				if cellOf(x.X) != nil {
+					continue // a local variable
+				}
+			}
+		case *ssa.Call:
+			n := calleeName(&x.Call)
+			if voc.calls[n] || n == "builtin.len" {
+				continue
+			}
+			if voc.extra != nil && voc.extra(l) {
+				continue
+			}
+			return "the result of " + n
+		case *ssa.Extract:
+			if cl, ok := x.Tuple.(*ssa.Call); ok {
+				n := calleeName(&cl.Call)
+				if voc.calls[n] || isErrorType(x.Type()) {
+					continue
+				}
+				if voc.extra != nil && voc.extra(l) {
+					continue
+				}
+				return "a result of " + n
+			}
+			if _, ok := x.Tuple.(*ssa.Lookup); ok {
+				continue
+			}
+			if _, ok := x.Tuple.(*ssa.TypeAssert); ok {
+				continue
+			}
+			if _, ok := x.Tuple.(*ssa.Next); ok {
+				continue
+			}
+		case *ssa.Lookup, *ssa.TypeAssert:
+			continue
+		}
+		if voc.extra != nil && voc.extra(l) {
+			continue
+		}
+		return describeValue(l)
+	}
+	return ""
+}
+
+func init() {
+	register(&Rule{
+		ID: "C04.R8", Props: []string{"C04", "C11"}, Min: 4,
+		Doc: "every item is visited: in Stack.ForEach the calls of the per-item callback are decided only by whether the collection resolved, by its reflect kind, by the loop bound (index against Len / the key list) and by the error a previous callback returned — no other test of the collection's value (IsZero, a content check, a type name) stands between a resolved sequence and its items",
+		Run: func(p *Prog, c *Ctx) {
+			fn := p.MustFn("(*vuego.Stack).ForEach")
+			voc := vocabulary{calls: map[string]bool{
+				"(*vuego.Stack).Resolve": true, "(reflect.Value).Kind": true, "(reflect.Value).Len": true, "(reflect.Value).IsValid": true, "(reflect.Value).IsNil": true,
+			}}
+			n := 0
+			for _, site := range callsIn(fn) {
+				cc := site.Common()
+				if cc.IsInvoke() || cc.StaticCallee() != nil {
+					continue
+				}
+				if _, isBuiltin := cc.Value.(*ssa.Builtin); isBuiltin {
+					continue
+				}
+				// a call of the callback parameter
+				isCb := false
+				for _, o := range p.origins(cc.Value, OriginOpts{}) {
+					if prm, ok := o.(*ssa.Parameter); ok && prm.Parent() == fn {
+						isCb = true
+					}
+				}
+				if !isCb {
+					continue
+				}
+				n++
+				for _, g := range controllingIfs(site) {
+					n++
+					what := voc.outsideVocabulary(p, g.If.Cond)
+					c.check(what == "", fmt.Sprintf("ForEach: callback#%d decided by %s", n, p.instrPos(g.If)), p.instrPos(g.If), "resolution, kind, loop bound or a callback error", "whether items are visited also depends on "+what+": for some value of a sequence kind no instance is rendered although it has items (reflect.Value.IsZero is true for an array of zero values), and a following v-else shows up next to a non-empty collection")
+				}
+			}
+			c.check(n > 0, "ForEach: calls the callback", p.pos(fn.Pos()), "callback calls found", "ForEach never calls its callback")
+		},
+	})
+
+	register(&Rule{
+		ID: "C05.R7", Props: []string{"C05"}, Min: 3,
+		Doc: "shorthand resolution visits every element: in the walk that rewrites registered component tags, the registry lookup and the descent into the children are decided only by the node's type, its tag name (registry membership), the child/sibling links and errors — not by any other property of the node (namespace, attributes, atom), so a shorthand tag is resolved wherever an explicit <template include> would work (inside inline <svg> / <math> as well)",
+		Run: func(p *Prog, c *Ctx) {
+			fn := p.MustFn("(*vuego.Vue).processComponentNode")
+			voc := vocabulary{
+				nodeFields: map[string]bool{"Type": true, "Data": true, "FirstChild": true, "NextSibling": true, "LastChild": true},
+				calls:      map[string]bool{"(*vuego.Vue).GetComponentFile": true},
+			}
+			n := 0
+			for _, site := range callsIn(fn) {
+				name := calleeName(site.Common())
+				if name != "(*vuego.Vue).processComponentNode" && name != "(*vuego.Vue).GetComponentFile" && name != "(*vuego.Vue).replaceWithInclude" {
+					continue
+				}
+				n++
+				c.ok(fmt.Sprintf("processComponentNode: %s#%d", strings.TrimPrefix(name, "(*vuego.Vue)."), n), p.instrPos(site), "action found")
+				for _, g := range controllingIfs(site) {
+					n++
+					what := voc.outsideVocabulary(p, g.If.Cond)
+					c.check(what == "", fmt.Sprintf("processComponentNode: %s decided by %s", strings.TrimPrefix(name, "(*vuego.Vue)."), p.instrPos(g.If)), p.instrPos(g.If), "node type, tag name, links, errors", "whether a node (and everything below it) is looked up in the component registry also depends on "+what+": a registered shorthand tag in such a place is emitted as a literal unknown element — no props, no front-matter, no :required check — while the equivalent <template include> works there")
+				}
+			}
+			c.check(n > 0, "processComponentNode: walks", p.pos(fn.Pos()), "recursion and lookup found", "the shorthand walk has no registry lookup or recursion")
+		},
+	})
+
+	register(&Rule{
+		ID: "C04.R9", Props: []string{"C04", "C06", "C03"}, Min: 4,
+		Doc: "v-for wraps everything else on its element: in the evaluator's per-element dispatch the special handlers — slot, conditional chain, template, and the ordinary attribute pass — are only reached when the element carries no v-for (the v-for branch comes first and hands each per-item copy back to the evaluator), so `<slot v-for>`, `<template v-for>` and `v-for` + `v-if` on one element all yield one instance per item",
+		Run: func(p *Prog, c *Ctx) {
+			fn := p.MustFn("(*vuego.Vue).evaluate")
+			n := 0
+			for _, site := range callsIn(fn) {
+				name := calleeName(site.Common())
+				switch name {
+				case "(*vuego.Vue).evalSlot", "(*vuego.Vue).evalElseIfChain", "(*vuego.Vue).evalTemplate", "(*vuego.Vue).evalAttributes":
+				default:
+					continue
+				}
+				n++
+				noFor := false
+				for _, g := range controllingIfs(site) {
+					cnd, flip := stripNot(g.If.Cond)
+					want := g.Branch != flip
+					// HasAttr(node, "v-for") is false / GetAttr(node, "v-for") == ""
+					if cl := isCallNamed(cnd, "helpers.HasAttr"); cl != nil && !want {
+						if k, ok := constString(cl.Call.Args[1]); ok && k == "v-for" {
+							noFor = true
+						}
+					}
+					if b := eqOnEdge(cnd, want); b != nil {
+						if cl := isCallNamed(b.X, "helpers.GetAttr"); cl != nil {
+							if k, ok := constString(cl.Call.Args[1]); ok && k == "v-for" {
+								if s, ok := constString(b.Y); ok && s == "" {
+									noFor = true
+								}
+							}
+						}
+					}
+				}
+				c.check(noFor, fmt.Sprintf("evaluate: %s only without v-for#%d", strings.TrimPrefix(name, "(*vuego.Vue)."), n), p.instrPos(site), "reached only when the element has no v-for", "this handler is reached for an element that still carries v-for: the loop is never run for it (a `<slot v-for>` is filled exactly once, without its loop variable; a `v-for` + `v-if` element is decided once instead of per item)")
+			}
+		},
+	})
+}
+
+func init() {
+	register(&Rule{
+		ID: "C07.R9", Props: []string{"C07"}, Min: 2,
+		Doc: "the layout route is chosen from what Load bound: Template.Render decides between the layout chain and plain rendering by reading the `layout` key through the template's own scope (Get), and Template.Load binds the loaded file's front-matter into that very scope — so a page rendered straight after Load (RenderFile, Load(x).Render()) still sees the layout its front-matter names. Dropping the binding from Load leaves the decision blind unless a Fill happens in between",
+		Run: func(p *Prog, c *Ctx) {
+			render := p.MustFn("(*vuego.template).Render")
+			reads := false
+			for _, site := range callsIn(render) {
+				if n := calleeName(site.Common()); n == "(*vuego.template).Get" || n == "(*vuego.Stack).Lookup" || n == "(*vuego.Stack).Resolve" || n == "(*vuego.Stack).GetString" {
+					for _, a := range site.Common().Args {
+						if k, ok := constString(a); ok && k == "layout" {
+							reads = true
+						}
+					}
+				}
+			}
+			c.check(reads, "Render: reads the layout key from the template's scope", p.pos(render.Pos()), "Get(\"layout\")", "Template.Render no longer reads the `layout` key from the template's scope")
+			ld := p.MustFn("(*vuego.template).Load")
+			c.check(p.loadAssignsFrontMatter(), "Load: binds the front-matter Render reads", p.pos(ld.Pos()), "front-matter bound in the fresh template's scope", "Load does not bind the file's front-matter in the new template's scope, which is where Render looks for `layout`: a page rendered right after Load takes the no-layout route — the bare page is written, the named chain is skipped and a layout cycle goes unreported")
+		},
+	})
+}
+
+func init() {
+	register(&Rule{
+		ID: "C08.R8", Props: []string{"C08"}, Min: 4,
+		Doc: "a variable is selected as a whole from one source: wherever one data source is merged over another (config files, Fill data, front-matter), the key is assigned in the accumulating map itself — never inside a map that was found as a value of that map (a nested, key-by-key merge of two sources' values). With a deep merge a variable defined by a higher-ranked source keeps sub-keys of the lower-ranked one, so the value a template sees comes from no single source",
+		Run: func(p *Prog, c *Ctx) {
+			roots := []*ssa.Function{p.MustFn("vuego.loadConfig"), p.MustFn("(*vuego.template).Fill"), p.MustFn("(*vuego.Vue).Render"), p.MustFn("(*vuego.Vue).RenderFragment"), p.MustFn("(*vuego.template).Load")}
+			scope := map[*ssa.Function]bool{}
+			for f := range p.Cone(roots...) {
+				if pk := funcPkg(f); pk != nil && pk.Path() == modPath {
+					scope[f] = true
+				}
+			}
+			isDataMap := func(t types.Type) bool {
+				m, ok := t.Underlying().(*types.Map)
+				if !ok {
+					return false
+				}
+				_, isIface := m.Elem().Underlying().(*types.Interface)
+				return isString(m.Key()) && isIface
+			}
+			// nestedOrigin: the map value was found inside another data map (lookup + type assertion), following
+			// parameters to the arguments of the module's call sites
+			var nestedOrigin func(v ssa.Value, depth int, seen map[ssa.Value]bool) string
+			nestedOrigin = func(v ssa.Value, depth int, seen map[ssa.Value]bool) string {
+				if depth > 4 || seen[v] {
+					return ""
+				}
+				seen[v] = true
+				for _, o := range p.origins(v, OriginOpts{}) {
+					switch x := o.(type) {
+					case *ssa.Lookup:
+						if isDataMap(x.X.Type()) {
+							return "a value looked up at " + p.instrPos(x)
+						}
+					case *ssa.Extract:
+						if lk, ok := x.Tuple.(*ssa.Lookup); ok && isDataMap(lk.X.Type()) {
+							return "a value looked up at " + p.instrPos(lk)
+						}
+					case *ssa.Parameter:
+						fn := x.Parent()
+						idx := -1
+						for i, q := range fn.Params {
+							if q == x {
+								idx = i
+							}
+						}
+						for _, site := range p.Callers(fn) {
+							if !scope[site.Parent()] && !scope[rootFunc(site.Parent())] {
+								continue
+							}
+							args := callArgs(site.Common())
+							if idx >= 0 && idx < len(args) {
+								if why := nestedOrigin(args[idx], depth+1, seen); why != "" {
+									return why + " and passed to " + shortName(fn) + " at " + p.instrPos(site)
+								}
+							}
+						}
+					}
+				}
+				return ""
+			}
+			n := 0
+			for _, fn := range sortedFuncs(scope) {
+				eachInstr(fn, func(in ssa.Instruction) {
+					mu, ok := in.(*ssa.MapUpdate)
+					if !ok || !isDataMap(mu.Map.Type()) {
+						return
+					}
+					// only merges: the key comes from ranging over another map
+					fromRange := false
+					var kw func(v ssa.Value, d int)
+					kw = func(v ssa.Value, d int) {
+						if v == nil || d > 6 {
+							return
+						}
+						switch x := v.(type) {
+						case *ssa.Extract:
+							if _, isNext := x.Tuple.(*ssa.Next); isNext {
+								fromRange = true
+							}
+						case *ssa.Phi:
+							for _, e := range x.Edges {
+								kw(e, d+1)
+							}
+						case *ssa.ChangeType:
+							kw(x.X, d+1)
+						case *ssa.Convert:
+							kw(x.X, d+1)
+						case *ssa.UnOp:
+							if cell := cellOf(x.X); cell != nil {
+								for _, st := range storesToCell(cell) {
+									kw(st.Val, d+1)
+								}
+							}
+						}
+					}
+					kw(mu.Key, 0)
+					if !fromRange {
+						return
+					}
+					n++
+					why := nestedOrigin(mu.Map, 0, map[ssa.Value]bool{})
+					c.check(why == "", fmt.Sprintf("%s: merge#%d assigns in the accumulating map", shortName(fn), n), p.instrPos(mu), "flat key-by-key assignment", "this merge writes into a map that is itself a value of the data being merged ("+why+"): two sources' values for one variable are blended key by key instead of the higher-ranked source's value replacing the other as a whole")
+				})
+			}
+			c.check(n >= 4, "merges found", "-", fmt.Sprintf("%d key-by-key merges examined", n), "fewer merges of data sources than expected")
+		},
+	})
+}
+
+func init() {
+	register(&Rule{
+		ID: "C08.R9", Props: []string{"C08", "C10"}, Min: 2,
+		Doc: "a new template inherits the engine and a copy of the data — nothing else: in the constructor behind Template.New and Template.Load, the only things that flow from the parent into the fresh template are the engine pointer and Stack.Copy() of its scope stack; the loaded file's state (front-matter, bytes, file name, error) stays behind. A whole-struct copy makes New() on a loaded page carry that page's front-matter along, which Fill then ranks above the data passed to it",
+		Run: func(p *Prog, c *Ctx) {
+			fn := p.MustFn("(*vuego.template).new")
+			recv := fn.Params[0]
+			n := 0
+			for _, r := range returnsOf(fn) {
+				for _, o := range p.origins(r.Results[0], OriginOpts{}) {
+					al, ok := o.(*ssa.Alloc)
+					if !ok {
+						c.fail(fmt.Sprintf("new: result#%d", n+1), p.instrPos(r), "the constructor returns "+describeValue(o)+" instead of a freshly allocated template: the parent and the new template are the same object")
+						n++
+						continue
+					}
+					for _, u := range *al.Referrers() {
+						switch x := u.(type) {
+						case *ssa.Store:
+							if x.Addr == ssa.Value(al) {
+								n++
+								c.fail(fmt.Sprintf("new: whole-struct store#%d", n), p.instrPos(x), "the fresh template is initialised by copying a whole template value: front-matter, file name, bytes and error of the parent come along (New() on a loaded page keeps that page's front-matter, which then outranks Fill data)")
+							}
+						case *ssa.FieldAddr:
+							fname := fieldName(x.X.Type(), x.Field)
+							for _, uu := range *x.Referrers() {
+								st, ok := uu.(*ssa.Store)
+								if !ok || st.Addr != ssa.Value(x) {
+									continue
+								}
+								n++
+								okSrc := true
+								why := ""
+								for _, so := range p.origins(st.Val, OriginOpts{}) {
+									switch y := so.(type) {
+									case *ssa.Const:
+									case *ssa.Call:
+										if calleeName(&y.Call) != "(*vuego.Stack).Copy" && calleeName(&y.Call) != "vuego.NewStack" && calleeName(&y.Call) != "vuego.NewStackWithData" {
+											okSrc, why = false, "the result of "+calleeName(&y.Call)
+										}
+									case *ssa.UnOp:
+										f := loadedField(y)
+										if f == nil || !fieldIs(f, "vue") {
+											okSrc, why = false, describeValue(y)
+										}
+										// the stack itself must not be shared
+										if f != nil && fieldIs(f, "stack") {
+											okSrc, why = false, "the parent's own scope stack (shared, not copied)"
+										}
+									default:
+										okSrc, why = false, describeValue(so)
+									}
+								}
+								c.check(okSrc, fmt.Sprintf("new: field %s#%d", fname, n), p.instrPos(st), "engine pointer, Stack.Copy() or a constant", "the fresh template's "+fname+" is taken from "+why+" of the parent: state of the parent's loaded file leaks into every template made from it")
+							}
+						}
+					}
+				}
+			}
+			_ = recv
+			c.check(n >= 2, "new: initialises engine and stack", p.pos(fn.Pos()), fmt.Sprintf("%d initialising stores", n), "the constructor does not set the engine and the stack copy")
+		},
+	})
+}
+
+// paramDeps: which parameters of fn the value is computed from (through calls, conversions, arithmetic).
+func paramDeps(v ssa.Value) map[*ssa.Parameter]bool { return paramDepsExcept(v, nil) }
+
+// paramDepsExcept does not look through calls for which barrier returns true.
+func paramDepsExcept(v ssa.Value, barrier func(*ssa.Call) bool) map[*ssa.Parameter]bool {
+	out := map[*ssa.Parameter]bool{}
+	seen := map[ssa.Value]bool{}
+	var walk func(v ssa.Value, d int)
+	walk = func(v ssa.Value, d int) {
+		if v == nil || seen[v] || d > 12 {
+			return
+		}
+		seen[v] = true
+		if prm, ok := v.(*ssa.Parameter); ok {
+			out[prm] = true
+			return
+		}
+		if cl, ok := v.(*ssa.Call); ok && barrier != nil && barrier(cl) {
+			return
+		}
+		if in, ok := v.(ssa.Instruction); ok {
+			for _, op := range in.Operands(nil) {
+				if op != nil && *op != nil {
+					walk(*op, d+1)
+				}
+			}
+		}
+		if ld, ok := v.(*ssa.UnOp); ok && ld.Op == token.MUL {
+			if cell := cellOf(ld.X); cell != nil {
+				for _, st := range storesToCell(cell) {
+					walk(st.Val, d+1)
+				}
+			}
+		}
+		if al, ok := v.(*ssa.Alloc); ok {
+			// what is stored into the object (the backing array of a variadic argument list, a literal)
+			for _, u := range *al.Referrers() {
+				switch x := u.(type) {
+				case *ssa.IndexAddr, *ssa.FieldAddr:
+					for _, uu := range *x.(ssa.Value).Referrers() {
+						if st, ok := uu.(*ssa.Store); ok && st.Addr == x.(ssa.Value) {
+							walk(st.Val, d+1)
+						}
+					}
+				case *ssa.Store:
+					if x.Addr == ssa.Value(al) {
+						walk(x.Val, d+1)
+					}
+				}
+			}
+		}
+	}
+	walk(v, 0)
+	return out
+}
+
+func init() {
+	register(&Rule{
+		ID: "C10.R7", Props: []string{"C10", "C04"}, Min: 3,
+		Doc: "the order of map keys is total: the comparator that puts the keys of a map into a fixed order before v-for iterates them answers every pair by comparing something computed from the first key with the same thing computed from the second — it never returns a constant for a class of keys. A constant `false` makes all such keys equal, the sort leaves Go's random map order in place, and two renders of the same data differ",
+		Run: func(p *Prog, c *Ctx) {
+			fn := p.MustFn("vuego.mapKeyLess")
+			if len(fn.Params) != 2 {
+				undecided("mapKeyLess does not take two keys")
+			}
+			a, b := fn.Params[0], fn.Params[1]
+			isPairCompare := func(v ssa.Value) bool {
+				bo, ok := v.(*ssa.BinOp)
+				if !ok {
+					return false
+				}
+				switch bo.Op {
+				case token.LSS, token.GTR, token.LEQ, token.GEQ, token.EQL, token.NEQ:
+				default:
+					return false
+				}
+				dx, dy := paramDeps(bo.X), paramDeps(bo.Y)
+				return (dx[a] && !dx[b] && dy[b] && !dy[a]) || (dx[b] && !dx[a] && dy[a] && !dy[b])
+			}
+			// a key's value, as opposed to its kind or type
+			kindOnly := func(cl *ssa.Call) bool {
+				switch calleeName(&cl.Call) {
+				case "(reflect.Value).Kind", "(reflect.Value).Type", "(reflect.Value).IsValid", "(reflect.Value).CanInt", "(reflect.Value).CanUint", "(reflect.Value).CanFloat", "(reflect.Value).CanInterface":
+					return true
+				}
+				return false
+			}
+			usesKeyValue := func(v ssa.Value) bool { return len(paramDepsExcept(v, kindOnly)) > 0 }
+			n := 0
+			for i, r := range returnsOf(fn) {
+				for _, alt := range alternatives(r.Results[0], r.Block()) {
+					n++
+					key := fmt.Sprintf("mapKeyLess: return#%d alternative#%d", i+1, n)
+					if isPairCompare(alt.V) {
+						c.ok(key, p.instrPos(r), "compares a projection of the first key with the same projection of the second")
+						continue
+					}
+					if _, isConst := alt.V.(*ssa.Const); !isConst {
+						c.check(usesKeyValue(alt.V), key, p.instrPos(r), "computed from the keys' values", "the comparator's answer does not depend on the values of the keys ("+describeValue(alt.V)+")")
+						continue
+					}
+					// a constant arm (`x < y || (x == y && …)`, `!a && b`): fine when the edge it arrives on is decided by a key's value
+					decided := false
+					if alt.To != nil {
+						if ifi, ok := alt.From.Instrs[len(alt.From.Instrs)-1].(*ssa.If); ok && usesKeyValue(ifi.Cond) {
+							decided = true
+						}
+					}
+					c.check(decided, key, p.instrPos(r), "constant arm of a comparison of the keys' values", "the comparator answers with a constant for a class of keys (decided by the keys' kind or type only, not by comparing them): all keys of that class count as equal, so their relative order — and with it the order of the v-for instances and their indexes — is whatever Go's randomised map iteration produced")
+				}
+			}
+			c.check(n >= 3, "mapKeyLess: compares", p.pos(fn.Pos()), fmt.Sprintf("%d alternatives", n), "comparator has fewer cases than expected")
+		},
+	})
+}
+
+func init() {
+	register(&Rule{
+		ID: "C13.R7", Props: []string{"C13"}, Min: 4,
+		Doc: "what counts as a pipe is decided in one way: the string the filter-chain parser splits on and the string every position tests for before routing an expression to the pipe interpreter are the same constant. If the router says `contains \"|\"` but the parser splits on `\" | \"`, a chain written `name|upper` or `a | f|g(1)` is sent to the pipe interpreter unsplit and its filters are not applied left to right (or the render fails looking up the variable `name|upper`)",
+		Run: func(p *Prog, c *Ctx) {
+			parser := p.MustFn("vuego.parsePipeExpr")
+			split := map[string]string{}
+			detectInParser := map[string]string{}
+			for _, site := range callsIn(parser) {
+				n := calleeName(site.Common())
+				args := site.Common().Args
+				if len(args) < 2 {
+					continue
+				}
+				k, ok := constString(args[1])
+				if !ok || !strings.Contains(k, "|") {
+					continue
+				}
+				switch n {
+				case "strings.Split", "strings.SplitN", "strings.SplitAfter", "strings.Cut", "strings.SplitSeq":
+					split[k] = p.instrPos(site)
+				case "strings.Contains", "strings.Index", "strings.ContainsAny", "strings.IndexByte", "strings.ContainsRune":
+					detectInParser[k] = p.instrPos(site)
+				}
+			}
+			c.check(len(split) == 1, "parsePipeExpr: splits the chain on one delimiter", p.pos(parser.Pos()), fmt.Sprintf("delimiter(s): %q", sortedKeys(split)), fmt.Sprintf("the chain parser splits on %d different pipe delimiters %q", len(split), sortedKeys(split)))
+			var delim string
+			for k := range split {
+				delim = k
+			}
+			check := func(k, where, who string) {
+				c.check(k == delim, fmt.Sprintf("%s: pipe test for %q agrees with the splitter", who, k), where, fmt.Sprintf("tests for %q, the parser splits on %q", k, delim), fmt.Sprintf("this position decides that an expression is a pipe by looking for %q, but the chain parser splits on %q: an expression with a pipe in the other spelling is routed to the pipe interpreter and not split (`name|upper` is looked up as one variable; the filters after it are not applied)", k, delim))
+			}
+			for _, k := range sortedKeys(detectInParser) {
+				check(k, detectInParser[k], "parsePipeExpr")
+			}
+			// the routers: conditions under which parsePipeExpr is called
+			for _, site := range p.Callers(parser) {
+				who := shortName(site.Parent())
+				seen := map[string]bool{}
+				var conds []ssa.Value
+				for _, g := range controllingIfs(site) {
+					conds = append(conds, g.If.Cond)
+				}
+				// the disjuncts of `contains("|") || isCall(x) || …` each enter the block separately
+				for x := site.Block(); x != nil; x = x.Idom() {
+					for _, ec := range enteringConds(x) {
+						if ec.cond != nil {
+							conds = append(conds, ec.cond)
+						}
+					}
+				}
+				for _, cnd := range conds {
+					walkCond(cnd, func(v ssa.Value) {
+						cl, ok := v.(*ssa.Call)
+						if !ok || len(cl.Call.Args) < 2 {
+							return
+						}
+						switch calleeName(&cl.Call) {
+						case "strings.Contains", "strings.Index", "strings.ContainsAny", "strings.IndexByte", "strings.ContainsRune":
+							if k, ok := constString(cl.Call.Args[1]); ok && strings.Contains(k, "|") && !seen[k] {
+								seen[k] = true
+								check(k, p.instrPos(cl), who)
+							}
+						}
+					})
+				}
+			}
+		},
+	})
+}
+
+func init() {
+	register(&Rule{
+		ID: "C14.R9", Props: []string{"C14", "C10"}, Min: 4,
+		Doc: "static attributes stay in place: no function that edits a node's attribute list moves an attribute to another position — an element of an []html.Attribute is only ever overwritten by a value that does not come from a later, length-derived position of the same kind of list (the swap-remove idiom `a[i] = a[len(a)-1]`), and a rebuilt list is filled in ascending source order. Removing `v-for` from `<li v-for class id title>` must leave `class id title`, not `title class id`",
+		Run: func(p *Prog, c *Ctx) {
+			isAttr := func(t types.Type) bool { return isNamed(t, "golang.org/x/net/html", "Attribute") }
+			elemIsAttr := func(ia *ssa.IndexAddr) bool {
+				pt, ok := ia.Type().Underlying().(*types.Pointer)
+				return ok && isAttr(pt.Elem())
+			}
+			// lastIndex: the value is `len(x) - k` (directly or through a local), i.e. a position counted from the end
+			lastIndex := func(v ssa.Value) bool {
+				for _, o := range append(p.origins(v, OriginOpts{}), v) {
+					if bo, ok := o.(*ssa.BinOp); ok && bo.Op == token.SUB && isCallNamed(bo.X, "builtin.len") != nil {
+						if _, isK := constInt(bo.Y); isK {
+							if _, isPhi := v.(*ssa.Phi); !isPhi {
+								return true
+							}
+						}
+					}
+				}
+				return false
+			}
+			n := 0
+			for _, fn := range p.Funcs {
+				edits := false
+				var bad []string
+				eachInstr(fn, func(in ssa.Instruction) {
+					st, ok := in.(*ssa.Store)
+					if !ok {
+						return
+					}
+					if fv := fieldVar(st.Addr); fv != nil && fv.Name() == "Attr" && fv.Pkg() != nil && fv.Pkg().Path() == "golang.org/x/net/html" {
+						edits = true
+					}
+					ia, ok := st.Addr.(*ssa.IndexAddr)
+					if !ok || !elemIsAttr(ia) {
+						return
+					}
+					edits = true
+					// the stored attribute: loaded from another position?
+					for _, o := range p.origins(st.Val, OriginOpts{}) {
+						ld, ok := o.(*ssa.UnOp)
+						if !ok || ld.Op != token.MUL {
+							continue
+						}
+						ib, ok := ld.X.(*ssa.IndexAddr)
+						if !ok || !elemIsAttr(ib) || ib.Index == ia.Index {
+							continue
+						}
+						if lastIndex(ib.Index) && ib.Index != ia.Index {
+							bad = append(bad, p.instrPos(st))
+						}
+					}
+				})
+				if !edits {
+					continue
+				}
+				n++
+				c.check(len(bad) == 0, shortName(fn)+": attribute order kept", p.pos(fn.Pos()), "no attribute is moved from the end of the list into an earlier position", "an attribute taken from the end of the list overwrites an earlier position ("+strings.Join(bad, ", ")+"): the remaining attributes change their order (`<li v-for class id title>` is emitted as `<li title class id>`)")
+			}
+			c.check(n >= 3, "attribute editors found", "-", fmt.Sprintf("%d functions that edit attribute lists", n), "fewer attribute-editing functions than expected")
+		},
+	})
+}
+
+func init() {
+	register(&Rule{
+		ID: "C17.R8", Props: []string{"C17", "C04", "C08"}, Min: 2,
+		Doc: "the innermost binding wins, whatever its value: in Stack.Lookup the scan over the scopes stops at the first scope whose map has the key — the decision uses only the presence flag of the map lookup (and the loop bound), never the value found. A test on the value (`ok && v != nil`) lets a name bound to nil fall through to an outer scope, so Lookup disagrees with the merged environment and a loop variable holding nil is shadowed by an outer variable of the same name",
+		Run: func(p *Prog, c *Ctx) {
+			fn := p.MustFn("(*vuego.Stack).Lookup")
+			n := 0
+			eachInstr(fn, func(in ssa.Instruction) {
+				lk, ok := in.(*ssa.Lookup)
+				if !ok || !lk.CommaOk || loopHeaderOf(lk.Block()) == nil {
+					return
+				}
+				var val, present ssa.Value
+				for _, u := range *lk.Referrers() {
+					if ex, ok := u.(*ssa.Extract); ok {
+						if ex.Index == 0 {
+							val = ex
+						} else {
+							present = ex
+						}
+					}
+				}
+				n++
+				c.check(present != nil, fmt.Sprintf("Lookup: scope lookup#%d uses the presence flag", n), p.instrPos(lk), "comma-ok lookup", "the scope lookup ignores whether the key is present")
+				// every branch in the loop that depends on this lookup must depend on the presence flag only
+				loop := loopBlocks(loopHeaderOf(lk.Block()))
+				for _, b := range fn.Blocks {
+					if !loop[b] {
+						continue
+					}
+					ifi, ok := b.Instrs[len(b.Instrs)-1].(*ssa.If)
+					if !ok {
+						continue
+					}
+					usesVal := false
+					for _, l := range condLeaves(ifi.Cond) {
+						if val != nil && (l == val || sameValue(l, val)) {
+							usesVal = true
+						}
+						// through a local the value was stored into
+						for _, o := range p.origins(l, OriginOpts{}) {
+							if val != nil && o == val {
+								usesVal = true
+							}
+						}
+					}
+					n++
+					c.check(!usesVal, fmt.Sprintf("Lookup: branch at %s decided by presence only", p.instrPos(ifi)), p.instrPos(ifi), "does not test the value found", "whether the scan stops at this scope depends on the value bound there, not only on the name being bound: a name bound to nil (or another rejected value) in an inner scope no longer shadows outer bindings — Lookup, Resolve and Get* return the outer value while EnvMap reports the inner nil")
+				}
+			})
+			c.check(n > 0, "Lookup: scans the scopes", p.pos(fn.Pos()), "scope lookup in a loop", "Lookup has no scope scan")
+		},
+	})
+}
+
+func init() {
+	register(&Rule{
+		ID: "C18.R6", Props: []string{"C18"}, Min: 1,
+		Doc: "one definition of `the first layer that has the path`: every method of the overlay that answers for a single path by walking the layers and returning at the first success decides `this layer has it` with the layer's own Open (as Open does) — the call whose error sends the walk on to the next layer is an Open of that layer, or the method delegates to the overlay's Open/Stat. A method that walks on after a different operation failed (fs.ReadFile on a path that is a directory in an upper layer) serves content from a lower layer although an upper layer has the path",
+		Run: func(p *Prog, c *Ctx) {
+			n := 0
+			for _, fn := range p.Funcs {
+				if fn.Parent() != nil || typeShort(recvType(fn)) != "*vuego.OverlayFS" {
+					continue
+				}
+				// walks the layer list?
+				var layerLoop *ssa.BasicBlock
+				eachInstr(fn, func(in ssa.Instruction) {
+					if ld, ok := in.(*ssa.UnOp); ok {
+						if f := loadedField(ld); f != nil && fieldIs(f, "chainFS") {
+							for _, u := range *ld.Referrers() {
+								if h := loopHeaderOf(u.Block()); h != nil {
+									layerLoop = h
+								}
+								if rg, ok := u.(*ssa.Range); ok {
+									for _, uu := range *rg.Referrers() {
+										if h := loopHeaderOf(uu.Block()); h != nil {
+											layerLoop = h
+										}
+									}
+								}
+							}
+						}
+					}
+				})
+				if layerLoop == nil {
+					continue
+				}
+				loop := loopBlocks(layerLoop)
+				// first-match shape: a return with a nil error inside the loop
+				firstMatch := false
+				for _, r := range returnsOf(fn) {
+					if len(r.Results) == 0 || !isNilConst(r.Results[len(r.Results)-1]) {
+						continue
+					}
+					// leaves the loop from its body (not through the loop's own exit test)
+					for _, pr := range r.Block().Preds {
+						if loop[pr] && pr != layerLoop {
+							firstMatch = true
+						}
+					}
+					if loop[r.Block()] {
+						firstMatch = true
+					}
+				}
+				if !firstMatch {
+					continue // a union over all layers (ReadDir, Glob): other rules
+				}
+				n++
+				// the calls in the loop whose error decides between "return" and "next layer"
+				var deciding []string
+				okAll := true
+				for _, site := range callsIn(fn) {
+					if !loop[site.Block()] {
+						continue
+					}
+					errs, has := errorResultOf(site)
+					if !has {
+						continue
+					}
+					decides := false
+					for _, e := range errs {
+						if refs := e.Referrers(); refs != nil {
+							for _, u := range *refs {
+								if bo, ok := u.(*ssa.BinOp); ok && (bo.Op == token.EQL || bo.Op == token.NEQ) {
+									decides = true
+								}
+							}
+						}
+					}
+					if !decides {
+						continue
+					}
+					name := calleeName(site.Common())
+					deciding = append(deciding, name)
+					switch name {
+					case "io/fs.FS.Open", "io/fs.Stat", "(*vuego.OverlayFS).Open", "io/fs.StatFS.Stat":
+					default:
+						okAll = false
+					}
+				}
+				c.check(okAll && len(deciding) > 0, shortName(fn)+": a layer is skipped only when it cannot open the path", p.pos(fn.Pos()), "decided by "+strings.Join(deciding, ", "), "this method walks on to the next layer when "+strings.Join(deciding, ", ")+" fails — a different test than Open's: for a path that an upper layer has (as a directory, or unreadable) it serves the content of a lower layer, while Open and Stat answer from the upper one")
+			}
+			c.check(n >= 1, "first-match methods found", "-", fmt.Sprintf("%d method(s) that return at the first layer that has the path", n), "no first-match method found on the overlay")
+		},
+	})
+}
+
+func init() {
+	register(&Rule{
+		ID: "C19.R7", Props: []string{"C19"}, Min: 4,
+		Doc: "verbatim elements are never laid out inline: the formatter's table of inline elements contains none of the elements whose content must not be touched — script, style (raw text: no escaping, no whitespace normalisation), pre and textarea (whitespace is content). An inline classification sends the element through the inline renderer, which collapses whitespace and escapes < > & in its text, and does so again on every formatting pass",
+		Run: func(p *Prog, c *Ctx) {
+			fn := p.MustFn("formatter.isInlineAtom")
+			var atomPkg *types.Package
+			for _, imp := range p.PkgBy[formatterPkg].Types.Imports() {
+				if imp.Path() == "golang.org/x/net/html/atom" {
+					atomPkg = imp
+				}
+			}
+			if atomPkg == nil {
+				undecided("formatter does not import x/net/html/atom")
+			}
+			have := map[int64]bool{}
+			collect := func(f *ssa.Function) {
+				eachInstr(f, func(in ssa.Instruction) {
+					for _, op := range in.Operands(nil) {
+						if op == nil || *op == nil {
+							continue
+						}
+						if cst, ok := (*op).(*ssa.Const); ok && cst.Value != nil && cst.Value.Kind() == constant.Int && isNamed(cst.Type(), "golang.org/x/net/html/atom", "Atom") {
+							if k, ok := constant.Int64Val(cst.Value); ok {
+								have[k] = true
+							}
+						}
+					}
+				})
+			}
+			collect(fn)
+			// a package-level table initialised in init()
+			for _, init := range p.Inits {
+				if pk := funcPkg(init); pk != nil && pk.Path() == formatterPkg {
+					eachInstr(fn, func(in ssa.Instruction) {
+						if ld, ok := in.(*ssa.UnOp); ok {
+							if g, ok := ld.X.(*ssa.Global); ok {
+								eachInstr(init, func(x ssa.Instruction) {
+									if st, ok := x.(*ssa.Store); ok && st.Addr == ssa.Value(g) {
+										collect(init)
+									}
+								})
+							}
+						}
+					})
+				}
+			}
+			c.check(len(have) >= 10, "inline table found", p.pos(fn.Pos()), fmt.Sprintf("%d inline elements", len(have)), "the inline-element table was not found")
+			for _, name := range []string{"Script", "Style", "Pre", "Textarea"} {
+				o, ok := atomPkg.Scope().Lookup(name).(*types.Const)
+				if !ok {
+					undecided("atom.%s not found", name)
+				}
+				k, _ := constant.Int64Val(o.Val())
+				c.check(!have[k], "inline table has no "+strings.ToLower(name), p.pos(fn.Pos()), "not classified inline", "<"+strings.ToLower(name)+"> is classified as an inline element: inside a paragraph, heading or table cell it is rendered by the inline renderer, which collapses the whitespace of its content and escapes < > & in it (a script body is altered, and altered again on every pass)")
+			}
+		},
+	})
+}
+
+func init() {
+	register(&Rule{
+		ID: "C19.R8", Props: []string{"C19"}, Min: 2,
+		Doc: "text is never re-indented line by line: outside script/style, the text of a text node reaches the output through trimming, the escaper and inline whitespace normalisation only — it is not handed to anything that splits it at newlines and rewrites the lines (strings.Split on \"\\n\", a per-line indenter). Indenting the continuation lines of a multi-line text node adds another indent step on every formatting pass, so formatting its own output changes it",
+		Run: func(p *Prog, c *Ctx) {
+			t := newTaint(p)
+			t.Scope = func(fn *ssa.Function) bool { pk := funcPkg(fn); return pk != nil && pk.Path() == formatterPkg }
+			t.FollowField = func(*types.Var) bool { return false }
+			// functions of the formatter package that take a string apart at newlines
+			lineSplitter := map[*ssa.Function]bool{}
+			for _, fn := range p.Funcs {
+				if pk := funcPkg(fn); pk == nil || pk.Path() != formatterPkg {
+					continue
+				}
+				for _, site := range callsIn(fn) {
+					switch calleeName(site.Common()) {
+					case "strings.Split", "strings.SplitN", "strings.SplitAfter", "strings.SplitSeq", "strings.Lines":
+						if len(site.Common().Args) > 1 {
+							if k, ok := constString(site.Common().Args[1]); ok && !strings.Contains(k, "\n") {
+								continue
+							}
+						}
+						for _, o := range p.origins(site.Common().Args[0], OriginOpts{}) {
+							if prm, ok := o.(*ssa.Parameter); ok && prm.Parent() == fn {
+								lineSplitter[fn] = true
+							}
+						}
+					}
+				}
+			}
+			t.Sink = func(u ssa.Instruction, v ssa.Value) string {
+				site, ok := u.(ssa.CallInstruction)
+				if !ok {
+					return ""
+				}
+				if r, _ := p.rawTextBranch(site.Block()); r || p.formatterRawOnly(site.Parent(), 0) {
+					return ""
+				}
+				if callee := site.Common().StaticCallee(); callee != nil && lineSplitter[callee] {
+					for i, a := range site.Common().Args {
+						if a == v && i < len(callee.Params) && isString(callee.Params[i].Type()) {
+							return "handed to " + shortName(callee) + ", which rewrites it line by line"
+						}
+					}
+				}
+				switch calleeName(site.Common()) {
+				case "strings.Split", "strings.SplitN", "strings.SplitAfter", "strings.SplitSeq", "strings.Lines":
+					if site.Common().Args[0] == v {
+						if len(site.Common().Args) > 1 {
+							if k, ok := constString(site.Common().Args[1]); ok && !strings.Contains(k, "\n") {
+								return ""
+							}
+						}
+						return "split into lines"
+					}
+				}
+				return ""
+			}
+			// do not follow the text into the line splitters themselves (they are the sink)
+			t.StopCall = func(site ssa.CallInstruction, arg ssa.Value) bool {
+				callee := site.Common().StaticCallee()
+				return callee != nil && lineSplitter[callee]
+			}
+			loads := p.formatterTextLoads()
+			for _, ld := range loads {
+				t.Seed(ld, "text Data loaded at "+p.instrPos(ld))
+			}
+			t.Run()
+			c.check(len(loads) >= 3, "formatter reads text nodes", "-", fmt.Sprintf("%d text read(s) followed; %d line-rewriting helper(s) in the package", len(loads), len(lineSplitter)), "fewer text reads than expected")
+			for _, h := range t.Hits {
+				c.fail(shortName(h.At.Parent())+": text "+h.What, p.instrPos(h.At), "the text of a text node is "+h.What+" ("+shortWhy(h.Why)+"): the continuation lines of a multi-line text node get one more indent step on every pass, so Format(Format(x)) differs from Format(x)")
+			}
+			c.ok("text flow", "-", "no text node content reaches a line-by-line rewriter outside script/style")
+		},
+	})
+}
+
+func init() {
+	register(&Rule{
+		ID: "C20.R8", Props: []string{"C20"}, Min: 2,
+		Doc: "Markdown source that stands for text is resolved before it is used: what the parser hands out unresolved — the segment of a (non-raw) Text node, the Destination and Title of links and images — reaches a template variable, a buffer or an escaper only after backslash escapes and character references were resolved (goldmark's HTML writer, util.UnescapePunctuations + util.Resolve…, util.URLEscape with resolution). An escape-only function (util.EscapeHTML, html.EscapeString) or a plain string conversion leaves `&amp;` to be escaped once more (`&amp;amp;`) and `\\*` with its backslash. Code (spans, blocks) and raw HTML are verbatim by definition and exempt",
+		Run: func(p *Prog, c *Ctx) {
+			t := newTaint(p)
+			t.Scope = func(fn *ssa.Function) bool { pk := funcPkg(fn); return pk != nil && pk.Path() == markdownPkg }
+			t.FollowField = func(*types.Var) bool { return false }
+			resolver := func(n string) bool {
+				switch {
+				case strings.HasSuffix(n, "goldmark/util.UnescapePunctuations"), strings.HasSuffix(n, "goldmark/util.ResolveNumericReferences"), strings.HasSuffix(n, "goldmark/util.ResolveEntityNames"), strings.HasSuffix(n, "goldmark/util.URLEscape"):
+					return true
+				case strings.Contains(n, "goldmark/renderer/html.") && (strings.HasSuffix(n, ".Write") || strings.HasSuffix(n, ".RawWrite") || strings.HasSuffix(n, ".SecureWrite")):
+					return true
+				}
+				return false
+			}
+			t.Sanitizer = func(site ssa.CallInstruction, arg ssa.Value) bool { return resolver(calleeName(site.Common())) }
+			verbatimFn := func(fn *ssa.Function) bool {
+				for _, prm := range rootFunc(fn).Params {
+					s := typeShort(prm.Type())
+					if strings.HasSuffix(s, "ast.CodeSpan") || strings.HasSuffix(s, "ast.CodeBlock") || strings.HasSuffix(s, "ast.FencedCodeBlock") || strings.HasSuffix(s, "ast.HTMLBlock") || strings.HasSuffix(s, "ast.RawHTML") {
+						return true
+					}
+				}
+				n := shortName(rootFunc(fn))
+				return strings.Contains(n, "codeBlockContent") || strings.Contains(n, "codeSpanContent")
+			}
+			rawGuarded := func(b *ssa.BasicBlock) bool {
+				return enteredOnlyUnder(b, func(cnd ssa.Value, want bool) bool {
+					cl, ok := cnd.(*ssa.Call)
+					return ok && want && strings.HasSuffix(calleeName(&cl.Call), ".IsRaw")
+				})
+			}
+			t.Sink = func(u ssa.Instruction, v ssa.Value) string {
+				if verbatimFn(u.Parent()) || rawGuarded(u.Block()) {
+					return ""
+				}
+				switch x := u.(type) {
+				case ssa.CallInstruction:
+					n := calleeName(x.Common())
+					args := callArgs(x.Common())
+					switch {
+					case strings.HasSuffix(n, "goldmark/util.EscapeHTML") || isEscapeCall(x.Common()):
+						return "escaped by " + n + " without resolving escapes and character references"
+					case (n == "(*bytes.Buffer).Write" || n == "(*bytes.Buffer).WriteString" || n == "(*strings.Builder).Write" || n == "(*strings.Builder).WriteString" || n == "io.WriteString" || n == "io.Writer.Write") && len(args) > 1 && args[1] == v:
+						return "written unresolved through " + n
+					}
+				case *ssa.MapUpdate:
+					if x.Value == v || unwrapIface(x.Value) == v {
+						k, _ := constString(unwrapIface(x.Key))
+						return "handed to a template as `" + k + "` unresolved"
+					}
+				}
+				return ""
+			}
+			seeds := 0
+			for _, fn := range p.Funcs {
+				if pk := funcPkg(fn); pk == nil || pk.Path() != markdownPkg || verbatimFn(fn) {
+					continue
+				}
+				eachInstr(fn, func(in ssa.Instruction) {
+					switch x := in.(type) {
+					case *ssa.UnOp:
+						if fv := loadedField(x); fv != nil && (fv.Name() == "Destination" || fv.Name() == "Title") && fv.Pkg() != nil && strings.HasSuffix(fv.Pkg().Path(), "goldmark/ast") {
+							seeds++
+							t.Seed(x, fv.Name()+" loaded at "+p.instrPos(x))
+						}
+					case *ssa.Call:
+						if !strings.HasSuffix(calleeName(&x.Call), "text.Segment).Value") || rawGuarded(x.Block()) {
+							return
+						}
+						// the segment of a Text node
+						recv := x.Call.Args[0]
+						isText := false
+						for _, o := range append(p.origins(recv, OriginOpts{}), recv) {
+							if fa, ok := o.(*ssa.FieldAddr); ok && strings.HasSuffix(typeShort(fa.X.Type()), "ast.Text") {
+								isText = true
+							}
+							if ld, ok := o.(*ssa.UnOp); ok {
+								if fa, ok := ld.X.(*ssa.FieldAddr); ok && strings.HasSuffix(typeShort(fa.X.Type()), "ast.Text") {
+									isText = true
+								}
+							}
+						}
+						if isText {
+							seeds++
+							t.Seed(x, "Text segment read at "+p.instrPos(x))
+						}
+					}
+				})
+			}
+			t.Run()
+			c.check(seeds >= 4, "unresolved source text found", "-", fmt.Sprintf("%d reads of destinations, titles and text segments followed", seeds), "fewer reads of unresolved Markdown source than expected")
+			for _, h := range t.Hits {
+				c.fail(shortName(h.At.Parent())+": source text "+h.What, p.instrPos(h.At), "Markdown source text is "+h.What+" ("+shortWhy(h.Why)+"): a character reference in it is escaped a second time (`&amp;` shows as `&amp;amp;`), numeric and named references stay as written, and `\\*` keeps its backslash")
+			}
+			c.ok("flows", "-", "every destination, title and text segment passes a resolving function before it is used")
+		},
+	})
+}
+
+func init() {
+	register(&Rule{
+		ID: "C11.R8", Props: []string{"C11", "C20"}, Min: 3,
+		Doc: "`last element` accesses are guarded: wherever a slice or string is indexed or sliced at a position counted from its end (x[len(x)-k], x[:len(x)-k]), a check that x has at least k elements controls the access — `len(x) > 0`, `len(x) >= k`, `len(x) != 0`, `x != \"\"`, a HasSuffix/HasPrefix test that implies it, or the early return for the empty case. An unguarded one panics with index out of range on empty input (an empty list item, an empty attribute), and no render path recovers",
+		Run: func(p *Prog, c *Ctx) {
+			n := 0
+			for _, fn := range p.Funcs {
+				eachInstr(fn, func(in ssa.Instruction) {
+					var base, idx ssa.Value
+					what := ""
+					switch x := in.(type) {
+					case *ssa.IndexAddr:
+						base, idx, what = x.X, x.Index, "indexed"
+					case *ssa.Index:
+						base, idx, what = x.X, x.Index, "indexed"
+					case *ssa.Slice:
+						if x.High != nil {
+							base, idx, what = x.X, x.High, "sliced"
+						}
+					case *ssa.Lookup:
+						if isString(x.X.Type()) {
+							base, idx, what = x.X, x.Index, "indexed"
+						}
+					}
+					if base == nil {
+						return
+					}
+					bo, ok := idx.(*ssa.BinOp)
+					if !ok || bo.Op != token.SUB {
+						return
+					}
+					k, isK := constInt(bo.Y)
+					ln := isCallNamed(bo.X, "builtin.len")
+					if !isK || k < 1 || ln == nil {
+						return
+					}
+					same := func(v ssa.Value) bool {
+						return v == base || sameValue(v, base) || (accessPath(v) != "" && accessPath(v) == accessPath(base))
+					}
+					if !same(ln.Call.Args[0]) {
+						return
+					}
+					n++
+					// the scope list of a Stack is never empty (C17.R2: Pop re-creates the root scope, constructors make one)
+					if fv := loadedField(base); fv != nil && fieldIs(fv, "stack") && k == 1 {
+						if pk := fv.Pkg(); pk != nil && pk.Path() == modPath {
+							c.ok(fmt.Sprintf("%s: %s at len-%d#%d", shortName(fn), what, k, n), p.instrPos(in), "the scope list always holds the root scope (C17.R2)")
+							return
+						}
+					}
+					implies := lenImplies(same, k, 0)
+					// a block that grows the value (x = append(x, …)) also establishes it
+					grows := func(b *ssa.BasicBlock) bool {
+						for _, x := range b.Instrs {
+							if st, ok := x.(*ssa.Store); ok {
+								if cl := isCallNamed(st.Val, "builtin.append"); cl != nil && accessPath(st.Addr) != "" {
+									if ld, ok := base.(*ssa.UnOp); ok && accessPath(ld.X) == accessPath(st.Addr) {
+										return true
+									}
+								}
+							}
+						}
+						return false
+					}
+					_ = grows
+					guarded := enteredOnlyUnder(in.Block(), implies) || everyPathCrosses(in.Block(), implies)
+					c.check(guarded, fmt.Sprintf("%s: %s at len-%d#%d", shortName(fn), what, k, n), p.instrPos(in), fmt.Sprintf("guarded by a length check for at least %d element(s)", k), fmt.Sprintf("the value is %s at len-%d without a check that it has %d element(s): on empty input the access panics with index out of range, and no render path recovers from a panic", what, k, k))
+				})
+			}
+			c.check(n >= 3, "end-relative accesses found", "-", fmt.Sprintf("%d accesses counted from the end examined", n), "fewer end-relative accesses than expected")
+		},
+	})
+}
+
+// lenImplies returns a predicate over branch conditions: taking the edge implies that the value
+// recognised by same has at least k elements / bytes.
+func lenImplies(same func(ssa.Value) bool, k int64, depth int) func(cnd ssa.Value, want bool) bool {
+	lenOf := func(v ssa.Value) bool {
+		cl := isCallNamed(v, "builtin.len")
+		return cl != nil && same(cl.Call.Args[0])
+	}
+	var implies func(cnd ssa.Value, want bool) bool
+	implies = func(cnd ssa.Value, want bool) bool {
+		if op, x, y, ok := relationOnEdge(cnd, want); ok {
+			if lenOf(x) {
+				if m, ok := constInt(y); ok {
+					switch op {
+					case token.GTR:
+						return m >= k-1
+					case token.GEQ:
+						return m >= k
+					case token.NEQ:
+						return m == 0 && k == 1
+					case token.EQL:
+						return m >= k
+					}
+				}
+			}
+			if lenOf(y) {
+				if m, ok := constInt(x); ok {
+					switch op {
+					case token.LSS:
+						return m >= k-1
+					case token.LEQ:
+						return m >= k
+					}
+				}
+				// a loop counter below len(x)
+				if op == token.LSS && k == 1 {
+					return true
+				}
+			}
+			if same(x) && op == token.NEQ && k == 1 {
+				if s, ok := constString(y); ok && s == "" {
+					return true
+				}
+			}
+		}
+		cl, ok := cnd.(*ssa.Call)
+		if !ok || !want {
+			return false
+		}
+		switch calleeName(&cl.Call) {
+		case "strings.HasSuffix", "strings.HasPrefix", "bytes.HasSuffix", "bytes.HasPrefix":
+			if same(cl.Call.Args[0]) {
+				if s, ok := constString(cl.Call.Args[1]); ok && int64(len(s)) >= k {
+					return true
+				}
+			}
+			return false
+		}
+		// a predicate of the module over the same value: true only when the length is there
+		callee := cl.Call.StaticCallee()
+		if callee == nil || !inModule(callee) || depth > 1 || len(callee.Params) == 0 {
+			return false
+		}
+		pi := -1
+		for i, a := range cl.Call.Args {
+			if same(a) && i < len(callee.Params) {
+				pi = i
+			}
+		}
+		if pi < 0 {
+			return false
+		}
+		prm := callee.Params[pi]
+		inner := lenImplies(func(v ssa.Value) bool { return v == ssa.Value(prm) }, k, depth+1)
+		// `a && b`: with two different one-byte affixes the value has at least two bytes
+		affixes := map[string]bool{}
+		for _, site := range callsIn(callee) {
+			switch calleeName(site.Common()) {
+			case "strings.HasSuffix", "strings.HasPrefix":
+				if site.Common().Args[0] == ssa.Value(prm) {
+					if s, ok := constString(site.Common().Args[1]); ok {
+						affixes[calleeName(site.Common())+s] = true
+					}
+				}
+			}
+		}
+		for _, r := range returnsOf(callee) {
+			for _, alt := range alternatives(r.Results[0], r.Block()) {
+				if cst, ok := alt.V.(*ssa.Const); ok && cst.Value != nil && cst.Value.String() == "false" {
+					continue
+				}
+				if inner(alt.V, true) || alt.holdsFor(inner) {
+					continue
+				}
+				if k == 2 && len(affixes) >= 2 && alt.holdsFor(lenImplies(func(v ssa.Value) bool { return v == ssa.Value(prm) }, 1, depth+1)) {
+					continue
+				}
+				return false
+			}
+		}
+		return true
+	}
+	return implies
+}
+
+func init() {
+	register(&Rule{
+		ID: "C16.R6", Props: []string{"C16"}, Min: 2,
+		Doc: "v-once ids are numbered by a counter that only moves forward over the whole walk: the number put into a `v-once-id` comes either from one variable shared by the entire walk (incremented after every use, never reset or copied per subtree), or from a value threaded through the recursion — and then every call that continues the walk hands its result on: the function returns what its recursive calls returned (not the value it had before descending), and a caller looping over roots feeds each result into the next call. A counter that is rewound after a subtree gives two different v-once elements the same id, and the later one is suppressed",
+		Run: func(p *Prog, c *Ctx) {
+			n := 0
+			for _, fn := range p.Funcs {
+				for _, site := range callsIn(fn) {
+					if calleeName(site.Common()) != "helpers.SetAttr" || len(site.Common().Args) < 3 {
+						continue
+					}
+					if k, ok := constString(site.Common().Args[1]); !ok || k != "v-once-id" {
+						continue
+					}
+					n++
+					// the number: argument of strconv.Itoa / fmt.Sprint inside the id
+					var num ssa.Value
+					var findNum func(v ssa.Value, d int)
+					findNum = func(v ssa.Value, d int) {
+						if v == nil || d > 8 || num != nil {
+							return
+						}
+						switch x := v.(type) {
+						case *ssa.BinOp:
+							findNum(x.X, d+1)
+							findNum(x.Y, d+1)
+						case *ssa.Call:
+							nm := calleeName(&x.Call)
+							if nm == "strconv.Itoa" || nm == "strconv.FormatInt" {
+								num = x.Call.Args[0]
+								return
+							}
+							for _, a := range x.Call.Args {
+								findNum(a, d+1)
+							}
+						case *ssa.Convert:
+							findNum(x.X, d+1)
+						case *ssa.Slice:
+							findNum(x.X, d+1)
+						case *ssa.Alloc:
+							for _, u := range *x.Referrers() {
+								if ia, ok := u.(*ssa.IndexAddr); ok {
+									for _, uu := range *ia.Referrers() {
+										if st, ok := uu.(*ssa.Store); ok {
+											findNum(st.Val, d+1)
+										}
+									}
+								}
+							}
+						case *ssa.MakeInterface:
+							if b, ok := x.X.Type().Underlying().(*types.Basic); ok && b.Info()&types.IsInteger != 0 {
+								num = x.X
+								return
+							}
+							findNum(x.X, d+1)
+						}
+					}
+					findNum(site.Common().Args[2], 0)
+					key := fmt.Sprintf("%s: v-once id#%d", shortName(fn), n)
+					if num == nil {
+						c.fail(key, p.instrPos(site), "the v-once id carries no running number: distinct v-once elements of one file share an id")
+						continue
+					}
+					// (a) a shared variable
+					if ld, ok := num.(*ssa.UnOp); ok && ld.Op == token.MUL {
+						if cell := cellOf(ld.X); cell != nil {
+							okCell, why := true, ""
+							incs := 0
+							for _, st := range storesToCell(cell) {
+								if _, isK := constInt(st.Val); isK {
+									if st.Parent() != cell.Parent() || loopHeaderOf(st.Block()) != nil {
+										okCell, why = false, "the counter is reset at "+p.instrPos(st)
+									}
+									continue
+								}
+								bo, isB := st.Val.(*ssa.BinOp)
+								if isB && bo.Op == token.ADD {
+									if l2, ok := bo.X.(*ssa.UnOp); ok && cellOf(l2.X) == cell {
+										if k, ok := constInt(bo.Y); ok && k > 0 {
+											incs++
+											continue
+										}
+									}
+								}
+								okCell, why = false, "the counter is overwritten at "+p.instrPos(st)+" with something other than itself plus a positive constant"
+							}
+							if incs == 0 && okCell {
+								okCell, why = false, "the counter is never incremented"
+							}
+							c.check(okCell, key, p.instrPos(site), "one shared counter, only ever incremented", "the counter behind the v-once ids does not only move forward ("+why+"): two distinct v-once elements can get the same id, and the later one is suppressed by the earlier one")
+							continue
+						}
+					}
+					// (a') a field of one object shared by the walk through a pointer (a small walker struct)
+					if ld, ok := num.(*ssa.UnOp); ok && ld.Op == token.MUL {
+						if fa, ok := ld.X.(*ssa.FieldAddr); ok {
+							fv := fieldVar(fa)
+							_, byPtr := fa.X.Type().Underlying().(*types.Pointer)
+							okFld, why := byPtr, ""
+							if !byPtr {
+								why = "the walker holding the counter is not shared through a pointer"
+							}
+							incs := 0
+							for _, g := range p.Funcs {
+								eachInstr(g, func(in ssa.Instruction) {
+									st, isSt := in.(*ssa.Store)
+									if !isSt || fieldVar(st.Addr) != fv || fv == nil {
+										return
+									}
+									if _, isK := constInt(st.Val); isK {
+										if loopHeaderOf(st.Block()) != nil || p.inRecursion(g) {
+											okFld, why = false, "the counter is reset at "+p.instrPos(st)
+										}
+										return
+									}
+									if bo, isB := st.Val.(*ssa.BinOp); isB && bo.Op == token.ADD {
+										if l2, ok := bo.X.(*ssa.UnOp); ok && fieldVar(l2.X) == fv {
+											if k, ok := constInt(bo.Y); ok && k > 0 {
+												incs++
+												return
+											}
+										}
+									}
+									okFld, why = false, "the counter is overwritten at "+p.instrPos(st)+" with something other than itself plus a positive constant"
+								})
+							}
+							if okFld && incs == 0 {
+								okFld, why = false, "the counter is never incremented"
+							}
+							c.check(okFld, key, p.instrPos(site), "one counter field of a walker shared by pointer, only ever incremented", "the counter behind the v-once ids does not only move forward ("+why+"): two distinct v-once elements can get the same id, and the later one is suppressed by the earlier one")
+							continue
+						}
+					}
+					// (b) threaded through the recursion as a parameter
+					root := rootFunc(fn)
+					var prm *ssa.Parameter
+					pi := -1
+					for _, o := range p.origins(num, OriginOpts{}) {
+						if q, ok := o.(*ssa.Parameter); ok && q.Parent() == fn {
+							prm = q
+						}
+						if bo, ok := o.(*ssa.BinOp); ok {
+							for _, oo := range p.origins(bo.X, OriginOpts{}) {
+								if q, ok := oo.(*ssa.Parameter); ok && q.Parent() == fn {
+									prm = q
+								}
+							}
+						}
+					}
+					if prm == nil {
+						c.fail(key, p.instrPos(site), "the number in the v-once id ("+describeValue(num)+") comes neither from a counter shared by the walk nor from a value threaded through it")
+						continue
+					}
+					for i, q := range fn.Params {
+						if q == prm {
+							pi = i
+						}
+					}
+					_ = root
+					isCallToFn := func(v ssa.Value) bool {
+						cl, ok := v.(*ssa.Call)
+						return ok && cl.Call.StaticCallee() == fn
+					}
+					fromCall := func(v ssa.Value) bool {
+						for _, o := range p.origins(v, OriginOpts{}) {
+							if isCallToFn(o) {
+								return true
+							}
+							if bo, ok := o.(*ssa.BinOp); ok {
+								for _, oo := range p.origins(bo.X, OriginOpts{}) {
+									if isCallToFn(oo) {
+										return true
+									}
+								}
+							}
+						}
+						return false
+					}
+					okThread, why := true, ""
+					var recCalls []ssa.CallInstruction
+					for _, s2 := range callsIn(fn) {
+						if s2.Common().StaticCallee() == fn {
+							recCalls = append(recCalls, s2)
+						}
+					}
+					for _, r := range returnsOf(fn) {
+						after := false
+						for _, s2 := range recCalls {
+							if canFollow(s2, r) {
+								after = true
+							}
+						}
+						if after && (len(r.Results) == 0 || !fromCall(r.Results[0])) {
+							okThread, why = false, "the function returns a value that does not come from its recursive calls (return at "+p.instrPos(r)+"): numbers handed out inside the subtree are handed out again after it"
+						}
+					}
+					for _, s2 := range recCalls {
+						if loopHeaderOf(s2.Block()) != nil && pi < len(s2.Common().Args) && !fromCall(s2.Common().Args[pi]) {
+							okThread, why = false, "a recursive call inside the child loop at "+p.instrPos(s2)+" does not receive the previous call's result"
+						}
+					}
+					for _, s2 := range p.Callers(fn) {
+						if s2.Parent() == fn {
+							continue
+						}
+						if loopHeaderOf(s2.Block()) != nil && pi < len(s2.Common().Args) {
+							fed := false
+							for _, o := range p.origins(s2.Common().Args[pi], OriginOpts{}) {
+								if cl, ok := o.(*ssa.Call); ok && cl.Call.StaticCallee() == fn {
+									fed = true
+								}
+							}
+							if !fed {
+								okThread, why = false, "the loop over the roots at "+p.instrPos(s2)+" does not feed a call's result into the next call"
+							}
+						}
+					}
+					c.check(okThread, key, p.instrPos(site), "threaded counter: every continuation hands its result on", "the number threaded through the v-once walk is rewound: "+why+" — two distinct v-once elements get the same id and the later one is suppressed")
+				}
+			}
+			c.check(n >= 1, "v-once ids are assigned", "-", fmt.Sprintf("%d id assignment(s) examined", n), "no v-once id assignment found")
+		},
+	})
+}
+
+// inRecursion: the function is part of a recursive cycle of the call graph.
+func (p *Prog) inRecursion(fn *ssa.Function) bool {
+	for _, comp := range p.recursiveSCCs() {
+		for _, f := range comp {
+			if f == fn {
+				return true
+			}
+		}
+	}
+	return false
+}
